@@ -1,4 +1,5 @@
 import sys
+# unmarshalUUID *[]byte: appends into the previous backing array / null gives empty instead of nil
 p=sys.argv[1]+'/marshal.go'; s=open(p).read()
 old="""		*v = u[:]
 		return nil"""
